@@ -283,7 +283,8 @@ class Interp:
             if len(targets) == 2 and targets[0][0] == '0' and targets[1][0] == 'otherwise':
                 tf = self.exec_block(targets[0][1], dict(env))
                 tt = self.exec_block(targets[1][1], dict(env))
-                return ('ite', v, tt, tf)
+                cond = ('ne', v, ('iconst', 0)) if self.is_int(v) else v
+                return ('ite', cond, tt, tf)
             # symbolic int with explicit cases
             if self.is_int(v):
                 other = dict((k, tg) for k, tg in targets)['otherwise']
@@ -296,12 +297,23 @@ class Interp:
         if m: return self.exec_block(m.group(1), env)
         m = re.match(r'drop\(.*\) -> \[return: (bb\d+)', t)
         if m: return self.exec_block(m.group(1), env)
-        m = re.match(r'(_\d+) = (.*?)\((.*)\) -> \[return: (bb\d+)', t)
-        if m:
-            dst, callee, argtxt, tgt = m.groups()
+        m = re.match(r'(_\d+) = (.*) -> \[return: (bb\d+)', t)
+        if m and m.group(2).rstrip().endswith(')'):
+            dst, calltxt, tgt = m.group(1), m.group(2).rstrip(), m.group(3)
+            # callee(args): the argument list is the last balanced parenthesis group (generic arguments of the
+            # callee may contain parentheses themselves, e.g. from_shape_fn::<(usize, usize), ...>)
+            depth = 0
+            k = len(calltxt) - 1
+            while k >= 0:
+                if calltxt[k] == ')': depth += 1
+                elif calltxt[k] == '(':
+                    depth -= 1
+                    if depth == 0: break
+                k -= 1
+            callee, argtxt = calltxt[:k], calltxt[k + 1:-1]
             env[dst] = self.call(callee, argtxt, env, self.f.types.get(dst, ''))
             return self.exec_block(tgt, env)
-        if t == 'unreachable;':
+        if t == 'unreachable;' or re.match(r'(_\d+ = )?(core::panicking::)?panic\w*(::<.*>)?\(.*\) -> unwind', t):
             return ('var', 'UNREACHABLE')
         raise Unsupported('terminator ' + t)
 
